@@ -77,12 +77,12 @@ func (b *specBatch) flush(section string) time.Duration {
 	dt := time.Since(t0)
 	for i, cs := range b.cases {
 		b.c.Case(cs.key, true)
-		b.c.Hist("class", strings.SplitN(cs.key, "/", 3)[0]+"/"+classSecond(cs.key))
+		b.c.Hist("class", strings.SplitN(cs.key, "/", 3)[0]+"/"+dvClassSecond(cs.key))
 		if i < 2 {
-			b.c.Sample(map[string]string{"op": clip(Render(cs.op), 300), "impl": clip(cs.impl, 300), "model": clip(models[i], 300)})
+			b.c.Sample(map[string]string{"op": dvClip(Render(cs.op), 300), "impl": dvClip(cs.impl, 300), "model": dvClip(models[i], 300)})
 		}
 		if models[i] != cs.impl {
-			b.c.Disagree(cs.props, clip(Render(cs.op), 4000), clip(cs.impl, 4000), clip(models[i], 4000), cs.replay)
+			b.c.Disagree(cs.props, dvClip(Render(cs.op), 4000), dvClip(cs.impl, 4000), dvClip(models[i], 4000), cs.replay)
 		}
 	}
 	n := len(b.cases)
@@ -93,7 +93,7 @@ func (b *specBatch) flush(section string) time.Duration {
 	return dt
 }
 
-func classSecond(key string) string {
+func dvClassSecond(key string) string {
 	p := strings.Split(key, "/")
 	if len(p) > 1 {
 		return p[1]
@@ -101,19 +101,19 @@ func classSecond(key string) string {
 	return ""
 }
 
-func clip(s string, n int) string {
+func dvClip(s string, n int) string {
 	if len(s) > n {
 		return s[:n] + "…"
 	}
 	return s
 }
 
-func hx(b []byte) Sx { return S(hex.EncodeToString(b)) }
+func dvHex(b []byte) Sx { return S(hex.EncodeToString(b)) }
 
-func okS(xs ...Sx) string { return Render(L(append([]Sx{A("ok")}, xs...)...)) }
+func dvOk(xs ...Sx) string { return Render(L(append([]Sx{A("ok")}, xs...)...)) }
 
-// protect runs f and turns a panic of the code under test into an outcome.
-func protect(f func() string) (out string) {
+// dvProtect runs f and turns a panic of the code under test into an outcome.
+func dvProtect(f func() string) (out string) {
 	defer func() {
 		if r := recover(); r != nil {
 			out = Render(L(A("panic"), S(fmt.Sprint(r))))
@@ -125,12 +125,12 @@ func protect(f func() string) (out string) {
 // ---------- generators ----------
 
 // message lengths around the SHA-256 block boundaries of (28-byte separator ‖ msg)
-var h2cEdgeLens = []int{0, 1, 2, 26, 27, 28, 29, 31, 32, 33, 35, 36, 37, 63, 64, 65, 90, 91, 92, 93, 99, 100, 101, 119, 120, 127, 128, 155, 156, 163, 164, 255, 256, 511, 512, 513, 599, 600}
+var dvH2CEdgeLens = []int{0, 1, 2, 26, 27, 28, 29, 31, 32, 33, 35, 36, 37, 63, 64, 65, 90, 91, 92, 93, 99, 100, 101, 119, 120, 127, 128, 155, 156, 163, 164, 255, 256, 511, 512, 513, 599, 600}
 
-func genMessage(r *Rng, i int) []byte {
+func dvGenMessage(r *Rng, i int) []byte {
 	switch r.Intn(8) {
 	case 0:
-		return r.Bytes(h2cEdgeLens[r.Intn(len(h2cEdgeLens))])
+		return r.Bytes(dvH2CEdgeLens[r.Intn(len(dvH2CEdgeLens))])
 	case 1: // 64-char hex text, what wallets actually hash (NUT-13 secrets)
 		return []byte(hex.EncodeToString(r.Bytes(32)))
 	case 2: // constant bytes
@@ -149,9 +149,9 @@ func genMessage(r *Rng, i int) []byte {
 	}
 }
 
-// h2cDepth: the harness' own loop (crypto/sha256 + secp256k1.ParsePubKey), as the task demands,
+// dvH2CDepth: the harness' own loop (crypto/sha256 + secp256k1.ParsePubKey), as the task demands,
 // used only to classify and pre-search messages by the number of iterations they need.
-func h2cDepth(msg []byte) int {
+func dvH2CDepth(msg []byte) int {
 	mh := sha256.Sum256(append([]byte("Secp256k1_HashToCurve_Cashu_"), msg...))
 	for counter := uint32(0); counter < 1<<16; counter++ {
 		c := []byte{byte(counter), byte(counter >> 8), byte(counter >> 16), byte(counter >> 24)}
@@ -163,7 +163,7 @@ func h2cDepth(msg []byte) int {
 	return -1
 }
 
-func edgeAmount(r *Rng) uint64 {
+func dvEdgeAmount(r *Rng) uint64 {
 	switch r.Intn(6) {
 	case 0:
 		return uint64(1) << uint(r.Intn(64))
@@ -180,7 +180,7 @@ func edgeAmount(r *Rng) uint64 {
 	}
 }
 
-func randScalar(r *Rng) *secp256k1.PrivateKey {
+func dvRandScalar(r *Rng) *secp256k1.PrivateKey {
 	for {
 		b := r.Bytes(32)
 		var s secp256k1.ModNScalar
@@ -190,7 +190,7 @@ func randScalar(r *Rng) *secp256k1.PrivateKey {
 	}
 }
 
-func genSeed(r *Rng) []byte {
+func dvGenSeed(r *Rng) []byte {
 	switch r.Intn(6) {
 	case 0:
 		return r.Bytes(16)
@@ -207,33 +207,33 @@ func genSeed(r *Rng) []byte {
 	}
 }
 
-func u64be(v uint64) []byte {
+func dvU64be(v uint64) []byte {
 	return []byte{byte(v >> 56), byte(v >> 48), byte(v >> 40), byte(v >> 32), byte(v >> 24), byte(v >> 16), byte(v >> 8), byte(v)}
 }
 
-const idMod = uint64(1)<<31 - 1
+const dvIdMod = uint64(1)<<31 - 1
 
-// genKeysetIdBytes: 8-byte ids by class.
-func genKeysetIdBytes(r *Rng, realIds [][]byte) ([]byte, string) {
+// dvGenKeysetIdBytes: 8-byte ids by class.
+func dvGenKeysetIdBytes(r *Rng, realIds [][]byte) ([]byte, string) {
 	switch r.Intn(10) {
 	case 0:
-		return u64be(0), "00.."
+		return dvU64be(0), "00.."
 	case 1:
-		return u64be(^uint64(0)), "ff.."
+		return dvU64be(^uint64(0)), "ff.."
 	case 2:
-		return u64be(uint64(1) << 63), "80.."
+		return dvU64be(uint64(1) << 63), "80.."
 	case 3, 4:
 		return realIds[r.Intn(len(realIds))], "real"
 	case 5: // value ≡ 0 mod 2^31-1
-		k := r.U64() % (^uint64(0) / idMod)
-		return u64be(k * idMod), "mod=0"
+		k := r.U64() % (^uint64(0) / dvIdMod)
+		return dvU64be(k * dvIdMod), "mod=0"
 	case 6: // value ≡ 2^31-2
-		k := r.U64()%(^uint64(0)/idMod-1) + 1
-		return u64be(k*idMod - 1), "mod=max"
+		k := r.U64()%(^uint64(0)/dvIdMod-1) + 1
+		return dvU64be(k*dvIdMod - 1), "mod=max"
 	case 7: // high bits set
-		return u64be(r.U64() | 0xff00000000000000), "high"
+		return dvU64be(r.U64() | 0xff00000000000000), "high"
 	case 8: // small values around the modulus
-		return u64be(idMod - 2 + uint64(r.Intn(5))), "near-mod"
+		return dvU64be(dvIdMod - 2 + uint64(r.Intn(5))), "near-mod"
 	default:
 		b := r.Bytes(8)
 		b[0] = 0
@@ -241,7 +241,7 @@ func genKeysetIdBytes(r *Rng, realIds [][]byte) ([]byte, string) {
 	}
 }
 
-func genCounter(r *Rng) (uint32, string) {
+func dvGenCounter(r *Rng) (uint32, string) {
 	switch r.Intn(9) {
 	case 0:
 		return 0, "0"
@@ -262,8 +262,8 @@ func genCounter(r *Rng) (uint32, string) {
 
 // ---------- the real code, canonicalised ----------
 
-func goH2C(msg []byte) string {
-	return protect(func() string {
+func dvGoH2C(msg []byte) string {
+	return dvProtect(func() string {
 		pk, err := crypto.HashToCurve(msg)
 		if err != nil {
 			return "(none)"
@@ -272,8 +272,8 @@ func goH2C(msg []byte) string {
 	})
 }
 
-func goNut13(seed []byte, idHex string, counter uint32) string {
-	return protect(func() string {
+func dvGoNut13(seed []byte, idHex string, counter uint32) string {
+	return dvProtect(func() string {
 		master, err := hdkeychain.NewMaster(seed, &chaincfg.MainNetParams)
 		if err != nil {
 			return "(invalid-seed)"
@@ -290,12 +290,12 @@ func goNut13(seed []byte, idHex string, counter uint32) string {
 		if err != nil {
 			return "(invalid-child)"
 		}
-		return okS(S(secret), hx(r.Serialize()))
+		return dvOk(S(secret), dvHex(r.Serialize()))
 	})
 }
 
-func goP2PK(seed []byte) string {
-	return protect(func() string {
+func dvGoP2PK(seed []byte) string {
+	return dvProtect(func() string {
 		master, err := hdkeychain.NewMaster(seed, &chaincfg.MainNetParams)
 		if err != nil {
 			return "(invalid-seed)"
@@ -304,14 +304,14 @@ func goP2PK(seed []byte) string {
 		if err != nil {
 			return "(invalid-child)"
 		}
-		return okS(hx(k.Serialize()))
+		return dvOk(dvHex(k.Serialize()))
 	})
 }
 
-// goMintKeys: id, public keys and private keys in amount order 2^0..2^59
-func goMintKeys(seed []byte, idx uint32) (string, *crypto.MintKeyset) {
+// dvGoMintKeys: id, public keys and private keys in amount order 2^0..2^59
+func dvGoMintKeys(seed []byte, idx uint32) (string, *crypto.MintKeyset) {
 	var ksOut *crypto.MintKeyset
-	out := protect(func() string {
+	out := dvProtect(func() string {
 		master, err := hdkeychain.NewMaster(seed, &chaincfg.MainNetParams)
 		if err != nil {
 			return "(invalid-seed)"
@@ -331,10 +331,10 @@ func goMintKeys(seed []byte, idx uint32) (string, *crypto.MintKeyset) {
 			if !ok {
 				return fmt.Sprintf("(missing-amount 2^%d)", j)
 			}
-			pubs[j] = hx(kp.PublicKey.SerializeCompressed())
-			privs[j] = hx(kp.PrivateKey.Serialize())
+			pubs[j] = dvHex(kp.PublicKey.SerializeCompressed())
+			privs[j] = dvHex(kp.PrivateKey.Serialize())
 		}
-		return okS(S(ks.Id), Ls(pubs), Ls(privs))
+		return dvOk(S(ks.Id), Ls(pubs), Ls(privs))
 	})
 	return out, ksOut
 }
@@ -364,8 +364,8 @@ func runDeriv(c *Ctx) {
 
 	// ---- (a) hash_to_curve ----
 	addH2C := func(msg []byte, class string) {
-		impl := goH2C(msg)
-		depth := h2cDepth(msg)
+		impl := dvGoH2C(msg)
+		depth := dvH2CDepth(msg)
 		monPt, monCtr, monOk := smHashToCurve(msg)
 		monS := "(none)"
 		if monOk {
@@ -380,19 +380,19 @@ func runDeriv(c *Ctx) {
 		}
 		want := "(none)"
 		if !strings.HasPrefix(impl, "(") {
-			want = okS(S(impl), I(depth-1))
+			want = dvOk(S(impl), I(depth-1))
 		} else if impl != "(none)" {
 			want = impl
 		}
 		c.Hist("h2c-depth", fmt.Sprintf("%02d", depth))
 		lb := len(msg) / 64
-		b.add(L(A("spec.h2c"), hx(msg)), want, fmt.Sprintf("h2c/%s/depth=%d/blocks=%d", class, depth, lb), replay)
+		b.add(L(A("spec.h2c"), dvHex(msg)), want, fmt.Sprintf("h2c/%s/depth=%d/blocks=%d", class, depth, lb), replay)
 	}
 	nH2C := 1200 * scale
 	for i := 0; i < nH2C; i++ {
-		addH2C(genMessage(r, i), "gen")
+		addH2C(dvGenMessage(r, i), "gen")
 	}
-	for _, l := range h2cEdgeLens {
+	for _, l := range dvH2CEdgeLens {
 		addH2C(r.Bytes(l), "edge-len")
 	}
 	// every length 0..600 once
@@ -427,7 +427,7 @@ func runDeriv(c *Ctx) {
 		if sr.Chance(30) {
 			msg = []byte(hex.EncodeToString(sr.Bytes(32)))
 		}
-		d := h2cDepth(msg)
+		d := dvH2CDepth(msg)
 		searched++
 		if d > deepest {
 			deepest, deepestMsg = d, msg
@@ -468,7 +468,7 @@ func runDeriv(c *Ctx) {
 	}
 	mintSeeds := [][]byte{bytes.Repeat([]byte{0}, 32), func() []byte { s, _ := hex.DecodeString("000102030405060708090a0b0c0d0e0f"); return s }()}
 	for len(mintSeeds) < nSeeds {
-		mintSeeds = append(mintSeeds, genSeed(r))
+		mintSeeds = append(mintSeeds, dvGenSeed(r))
 	}
 	// pre-searched (HMAC only, with the monitor): seeds for which the key at level 0..3 of m/0'/0'/idx' has a
 	// leading zero byte, i.e. where ser256 padding in the next hardened derivation matters
@@ -515,9 +515,9 @@ func runDeriv(c *Ctx) {
 	for _, job := range mintJobs {
 		seed := job.seed
 		for _, idx := range job.idxs {
-			impl, ks := goMintKeys(seed, idx)
+			impl, ks := dvGoMintKeys(seed, idx)
 			replay := map[string]any{"seed_hex": hex.EncodeToString(seed), "idx": idx}
-			b.add(L(A("spec.mintkeys"), hx(seed), N(uint64(idx))), impl, fmt.Sprintf("mintkeys/%s/seedlen=%d/idx=%d", job.class, len(seed), idx), replay)
+			b.add(L(A("spec.mintkeys"), dvHex(seed), N(uint64(idx))), impl, fmt.Sprintf("mintkeys/%s/seedlen=%d/idx=%d", job.class, len(seed), idx), replay)
 			if ks != nil {
 				realKeysets = append(realKeysets, ks)
 				id, _ := hex.DecodeString(ks.Id)
@@ -545,7 +545,7 @@ func runDeriv(c *Ctx) {
 
 	// ---- (b) keyset ids ----
 	addKeysetId := func(keys map[uint64]*secp256k1.PublicKey, class string) {
-		impl := protect(func() string { return okS(S(crypto.DeriveKeysetId(keys))) })
+		impl := dvProtect(func() string { return dvOk(S(crypto.DeriveKeysetId(keys))) })
 		// Lean gets the pairs in an order of the harness' choosing (shuffled), the monitor gets bytes
 		type pair struct {
 			a uint64
@@ -580,11 +580,11 @@ func runDeriv(c *Ctx) {
 		items := make([]Sx, len(ps))
 		rep := make([]string, len(ps))
 		for i, p := range ps {
-			items[i] = L(N(p.a), hx(p.k))
+			items[i] = L(N(p.a), dvHex(p.k))
 			rep[i] = fmt.Sprintf("%d:%x", p.a, p.k)
 		}
 		replay := map[string]any{"keys": rep}
-		if m := okS(S(smKeysetId(mon))); m != impl {
+		if m := dvOk(S(smKeysetId(mon))); m != impl {
 			c.MonitorFail("C11", "keysetid-go-vs-monitor", fmt.Sprintf("crypto.DeriveKeysetId = %s, independent NUT-02 implementation = %s", impl, m), replay)
 		}
 		c.Hist("keyset-size", fmt.Sprintf("%02d", len(ps)))
@@ -604,7 +604,7 @@ func runDeriv(c *Ctx) {
 			case 0:
 				a = uint64(1) << uint(len(keys)) // the usual powers of two
 			case 1:
-				a = edgeAmount(r)
+				a = dvEdgeAmount(r)
 			case 2:
 				a = uint64(r.Intn(200)) // dense small amounts, adjacent values
 			default:
@@ -618,7 +618,7 @@ func runDeriv(c *Ctx) {
 				ks := realKeysets[r.Intn(len(realKeysets))]
 				k = ks.Keys[uint64(1)<<uint(r.Intn(60))].PublicKey
 			} else {
-				k = randScalar(r).PubKey()
+				k = dvRandScalar(r).PubKey()
 			}
 			keys[a] = k
 		}
@@ -629,7 +629,7 @@ func runDeriv(c *Ctx) {
 	}
 	// the same key for every amount; and the empty key set
 	{
-		k := randScalar(r).PubKey()
+		k := dvRandScalar(r).PubKey()
 		keys := map[uint64]*secp256k1.PublicKey{}
 		for j := 0; j < 8; j++ {
 			keys[uint64(1)<<uint(j)] = k
@@ -645,15 +645,15 @@ func runDeriv(c *Ctx) {
 		if upper {
 			idHex = strings.ToUpper(idHex)
 		}
-		impl := goNut13(seed, idHex, counter)
+		impl := dvGoNut13(seed, idHex, counter)
 		replay := map[string]any{"seed_hex": hex.EncodeToString(seed), "keyset_id": idHex, "counter": counter}
 		secret, rb, trace, ok := smNut13(seed, id, counter)
 		mon := "(invalid-child)"
 		if ok {
-			mon = okS(S(secret), hx(rb))
+			mon = dvOk(S(secret), dvHex(rb))
 		}
 		if mon != impl {
-			c.MonitorFail("C11", "nut13-go-vs-monitor", fmt.Sprintf("nut13 derivation = %s, independent NUT-13/BIP32 implementation = %s", clip(impl, 200), clip(mon, 200)), replay)
+			c.MonitorFail("C11", "nut13-go-vs-monitor", fmt.Sprintf("nut13 derivation = %s, independent NUT-13/BIP32 implementation = %s", dvClip(impl, 200), dvClip(mon, 200)), replay)
 		}
 		lz := "nolz"
 		for _, k := range trace {
@@ -664,7 +664,7 @@ func runDeriv(c *Ctx) {
 		c.Hist("nut13-id", idClass)
 		c.Hist("nut13-counter", ctrClass)
 		c.Hist("nut13-leading-zero", lz)
-		b.add(L(A("spec.nut13"), hx(seed), S(idHex), N(uint64(counter))), impl,
+		b.add(L(A("spec.nut13"), dvHex(seed), S(idHex), N(uint64(counter))), impl,
 			fmt.Sprintf("nut13/id=%s/ctr=%s/seedlen=%d/%s", idClass, ctrClass, len(seed), lz), replay)
 		// keyset_id_int on its own
 		if r.Chance(20) {
@@ -678,10 +678,10 @@ func runDeriv(c *Ctx) {
 		seeds = append(seeds, s)
 	}
 	for len(seeds) < 12*scale {
-		seeds = append(seeds, genSeed(r))
+		seeds = append(seeds, dvGenSeed(r))
 	}
 	// the full grid of the named ids × named counters for the first seeds
-	gridIds := [][]byte{u64be(0), u64be(^uint64(0)), u64be(uint64(1) << 63), realIds[0], u64be(idMod), u64be(idMod - 1), u64be(2*idMod - 1), u64be(0xffffffff00000000)}
+	gridIds := [][]byte{dvU64be(0), dvU64be(^uint64(0)), dvU64be(uint64(1) << 63), realIds[0], dvU64be(dvIdMod), dvU64be(dvIdMod - 1), dvU64be(2*dvIdMod - 1), dvU64be(0xffffffff00000000)}
 	gridIdNames := []string{"00..", "ff..", "80..", "real", "mod=0", "mod=max", "mod=max", "high"}
 	gridCtrs := []uint32{0, 1, 2, 1<<31 - 2, 1<<31 - 1}
 	gridCtrNames := []string{"0", "1", "2", "2^31-2", "2^31-1"}
@@ -694,8 +694,8 @@ func runDeriv(c *Ctx) {
 	}
 	for i := 0; i < nTriples; i++ {
 		seed := seeds[r.Intn(len(seeds))]
-		id, idClass := genKeysetIdBytes(r, realIds)
-		ctr, ctrClass := genCounter(r)
+		id, idClass := dvGenKeysetIdBytes(r, realIds)
+		ctr, ctrClass := dvGenCounter(r)
 		addNut13(seed, id, ctr, idClass, ctrClass, r.Chance(5))
 	}
 	// pre-searched: a private key with a leading zero byte somewhere on the path (the padding of
@@ -712,15 +712,15 @@ func runDeriv(c *Ctx) {
 			seed := sr.Bytes(16 + sr.Intn(49))
 			if m, ok := smMaster(seed); ok && m.k.BitLen() <= 248 {
 				found["master"]++
-				id, idc := genKeysetIdBytes(r, realIds)
-				ctr, cc := genCounter(r)
+				id, idc := dvGenKeysetIdBytes(r, realIds)
+				ctr, cc := dvGenCounter(r)
 				addNut13(seed, id, ctr, idc, cc+"+lz-master", false)
 			}
 		}
 		// (ii) a hardened level below the master: purpose, coin type or keyset level
 		for tries := 0; found["hardened"] < wantLz && tries < 200000; tries++ {
 			seed := sr.Bytes(32)
-			id, idc := genKeysetIdBytes(sr, realIds)
+			id, idc := dvGenKeysetIdBytes(sr, realIds)
 			_, tr, ok := smDerive(seed, []uint32{smHard + 129372, smHard + 0, smHard + smKeysetIdInt(id)})
 			if !ok {
 				continue
@@ -728,7 +728,7 @@ func runDeriv(c *Ctx) {
 			for _, k := range tr[1:] {
 				if k.BitLen() <= 248 {
 					found["hardened"]++
-					ctr, cc := genCounter(r)
+					ctr, cc := dvGenCounter(r)
 					addNut13(seed, id, ctr, idc, cc+"+lz-path", false)
 					break
 				}
@@ -763,7 +763,7 @@ func runDeriv(c *Ctx) {
 	var p2pkSeeds [][]byte
 	var p2pkClass []string
 	for i := 0; i < nP2PK; i++ {
-		seed := genSeed(r)
+		seed := dvGenSeed(r)
 		if i < len(seeds) {
 			seed = seeds[i]
 		}
@@ -791,17 +791,17 @@ func runDeriv(c *Ctx) {
 		}
 	}
 	for i, seed := range p2pkSeeds {
-		impl := goP2PK(seed)
+		impl := dvGoP2PK(seed)
 		replay := map[string]any{"seed_hex": hex.EncodeToString(seed)}
 		mk, ok := smP2PK(seed)
 		mon := "(invalid-child)"
 		if ok {
-			mon = okS(hx(mk))
+			mon = dvOk(dvHex(mk))
 		}
 		if mon != impl {
 			c.MonitorFail("C11", "p2pk-go-vs-monitor", fmt.Sprintf("wallet.DeriveP2PK = %s, independent m/129372'/0'/1'/0 = %s", impl, mon), replay)
 		}
-		b.add(L(A("spec.p2pk"), hx(seed)), impl, fmt.Sprintf("p2pk/%s/seedlen=%d", p2pkClass[i], len(seed)), replay)
+		b.add(L(A("spec.p2pk"), dvHex(seed)), impl, fmt.Sprintf("p2pk/%s/seedlen=%d", p2pkClass[i], len(seed)), replay)
 	}
 	leanTotal += b.flush("p2pk")
 
@@ -818,18 +818,18 @@ func runDeriv(c *Ctx) {
 			m = r.Bytes(r.Intn(2200))
 		}
 		h := sha256.Sum256(m)
-		b.add(L(A("spec.sha256"), hx(m)), Render(hx(h[:])), fmt.Sprintf("sha256/blocks=%d", (len(m)+9+63)/64), nil)
+		b.add(L(A("spec.sha256"), dvHex(m)), Render(dvHex(h[:])), fmt.Sprintf("sha256/blocks=%d", (len(m)+9+63)/64), nil)
 		h5 := sha512.Sum512(m)
-		b.add(L(A("spec.sha512"), hx(m)), Render(hx(h5[:])), fmt.Sprintf("sha512/blocks=%d", (len(m)+17+127)/128), nil)
+		b.add(L(A("spec.sha512"), dvHex(m)), Render(dvHex(h5[:])), fmt.Sprintf("sha512/blocks=%d", (len(m)+17+127)/128), nil)
 		key := r.Bytes([]int{0, 1, 12, 32, 64, 127, 128, 129, 200}[r.Intn(9)])
 		mac := hmac.New(sha512.New, key)
 		mac.Write(m)
-		b.add(L(A("spec.hmac512"), hx(key), hx(m)), Render(hx(mac.Sum(nil))), fmt.Sprintf("hmac512/keylen=%d", len(key)), nil)
+		b.add(L(A("spec.hmac512"), dvHex(key), dvHex(m)), Render(dvHex(mac.Sum(nil))), fmt.Sprintf("hmac512/keylen=%d", len(key)), nil)
 	}
 	leanTotal += b.flush("hashes")
 	nCkd := 120 * scale
 	for i := 0; i < nCkd; i++ {
-		seed := genSeed(r)
+		seed := dvGenSeed(r)
 		depth := r.Intn(7)
 		path := make([]uint32, depth)
 		sx := make([]Sx, depth)
@@ -852,7 +852,7 @@ func runDeriv(c *Ctx) {
 			}
 			sx[j] = N(uint64(path[j]))
 		}
-		impl := protect(func() string {
+		impl := dvProtect(func() string {
 			k, err := hdkeychain.NewMaster(seed, &chaincfg.MainNetParams)
 			if err != nil {
 				return "(invalid-seed)"
@@ -867,7 +867,7 @@ func runDeriv(c *Ctx) {
 			if err != nil {
 				return "(invalid-child)"
 			}
-			return okS(hx(pk.Serialize()), hx(k.ChainCode()))
+			return dvOk(dvHex(pk.Serialize()), dvHex(k.ChainCode()))
 		})
 		nh := 0
 		for _, ix := range path {
@@ -877,11 +877,11 @@ func runDeriv(c *Ctx) {
 		}
 		replay := map[string]any{"seed_hex": hex.EncodeToString(seed), "path": path}
 		if mk, _, ok := smDerive(seed, path); ok {
-			if m := okS(hx(smPad32(mk.k)), hx(mk.chain)); m != impl {
+			if m := dvOk(dvHex(smPad32(mk.k)), dvHex(mk.chain)); m != impl {
 				c.MonitorFail("C11", "bip32-go-vs-monitor", fmt.Sprintf("hdkeychain = %s, independent BIP32 = %s", impl, m), replay)
 			}
 		}
-		b.add(L(A("spec.ckd"), hx(seed), Ls(sx)), impl, fmt.Sprintf("ckd/depth=%d/hardened=%d", depth, nh), replay)
+		b.add(L(A("spec.ckd"), dvHex(seed), Ls(sx)), impl, fmt.Sprintf("ckd/depth=%d/hardened=%d", depth, nh), replay)
 	}
 	leanTotal += b.flush("bip32")
 	nParse := 300 * scale
@@ -893,13 +893,13 @@ func runDeriv(c *Ctx) {
 			enc = append([]byte{2 + byte(r.Intn(2))}, r.Bytes(32)...)
 			class = "random-x"
 		case 2: // a valid key, compressed
-			enc = randScalar(r).PubKey().SerializeCompressed()
+			enc = dvRandScalar(r).PubKey().SerializeCompressed()
 			class = "valid-33"
 		case 3: // a valid key, uncompressed
-			enc = randScalar(r).PubKey().SerializeUncompressed()
+			enc = dvRandScalar(r).PubKey().SerializeUncompressed()
 			class = "valid-65"
 		case 4: // uncompressed with a wrong y
-			enc = randScalar(r).PubKey().SerializeUncompressed()
+			enc = dvRandScalar(r).PubKey().SerializeUncompressed()
 			enc[64] ^= 1
 			class = "bad-y-65"
 		case 5: // x >= p
@@ -907,7 +907,7 @@ func runDeriv(c *Ctx) {
 			enc = append([]byte{2}, smPad32(x)...)
 			class = "x>=p"
 		case 6: // wrong length or prefix
-			enc = randScalar(r).PubKey().SerializeCompressed()
+			enc = dvRandScalar(r).PubKey().SerializeCompressed()
 			if r.Bool() {
 				enc = enc[:32]
 				class = "short"
@@ -919,27 +919,27 @@ func runDeriv(c *Ctx) {
 			enc = append([]byte{2 + byte(r.Intn(2))}, smPad32(big.NewInt(int64(r.Intn(40))))...)
 			class = "small-x"
 		}
-		impl := protect(func() string {
+		impl := dvProtect(func() string {
 			pk, err := secp256k1.ParsePubKey(enc)
 			if err != nil {
 				return "(invalid-point)"
 			}
-			return okS(hx(pk.SerializeCompressed()), hx(pk.SerializeUncompressed()))
+			return dvOk(dvHex(pk.SerializeCompressed()), dvHex(pk.SerializeUncompressed()))
 		})
-		b.add(L(A("spec.parse"), hx(enc)), impl, "parse/"+class+"/"+impl[:3], map[string]any{"enc": hex.EncodeToString(enc)})
+		b.add(L(A("spec.parse"), dvHex(enc)), impl, "parse/"+class+"/"+impl[:3], map[string]any{"enc": hex.EncodeToString(enc)})
 	}
 	leanTotal += b.flush("parse")
 	// fast path against the affine definition on inputs of this run (beyond the start-up cross-check)
 	nMul := 4 * scale
 	for i := 0; i < nMul; i++ {
-		k := randScalar(r)
-		P := randScalar(r).PubKey()
+		k := dvRandScalar(r)
+		P := dvRandScalar(r).PubKey()
 		var pj, res secp256k1.JacobianPoint
 		P.AsJacobian(&pj)
 		secp256k1.ScalarMultNonConst(&k.Key, &pj, &res)
 		res.ToAffine()
 		kp := secp256k1.NewPublicKey(&res.X, &res.Y)
-		b.add(L(A("spec.mulcheck"), hx(k.Serialize()), hx(P.SerializeCompressed())), okS(hx(kp.SerializeCompressed())), "mulcheck/random", nil)
+		b.add(L(A("spec.mulcheck"), dvHex(k.Serialize()), dvHex(P.SerializeCompressed())), dvOk(dvHex(kp.SerializeCompressed())), "mulcheck/random", nil)
 	}
 	leanTotal += b.flush("mulcheck")
 
